@@ -16,6 +16,7 @@ func BaseWeights() map[string]int {
 		"exec": 22, "wait": 5, "auth": 4, "gate": 2, "ungate": 4, "cancel": 6,
 		"sync": 34, "csync": 3, "kill": 3, "killq": 1, "drain+": 2, "drain-": 3,
 		"term": 1, "cterm": 1, "adv": 10, "poke": 2, "list": 2,
+		"gkill": 1, "gkillopen": 2,
 	}
 }
 
@@ -31,6 +32,7 @@ func ProfileFor(prop string) Profile {
 	case "C02":
 		p.RetryHeavy = true
 		w["wait"], w["auth"], w["gate"], w["ungate"], w["cancel"], w["adv"], w["kill"] = 10, 8, 6, 8, 9, 14, 5
+		w["gkill"], w["gkillopen"] = 3, 3
 	case "C03":
 		p.DedupHeavy = true
 		w["exec"], w["cancel"], w["adv"] = 32, 9, 12
@@ -41,6 +43,7 @@ func ProfileFor(prop string) Profile {
 		p.QuietTimers = true
 		w["exec"], w["sync"], w["adv"], w["wait"], w["kill"], w["term"], w["killq"] = 45, 40, 12, 1, 1, 0, 0
 		w["cterm"], w["cancel"], w["drain+"], w["gate"], w["csync"] = 0, 2, 1, 0, 1
+		w["gkill"], w["gkillopen"] = 0, 0
 	case "C05":
 		p.Routing = true
 		p.LongAdvances = true
@@ -50,10 +53,19 @@ func ProfileFor(prop string) Profile {
 		p.LongAdvances = true
 		p.RetryHeavy = true
 		w["adv"], w["cancel"], w["csync"], w["term"], w["cterm"] = 16, 9, 5, 3, 2
+		w["gkill"], w["gkillopen"] = 3, 2
 	case "C07":
 		p.LeakPhase = true
 		p.RetryHeavy = true
 		w["exec"], w["sync"], w["kill"], w["cancel"] = 26, 40, 5, 8
+	case "C14":
+		// Lock discipline of the scheduler: blocking calls, error
+		// returns and the unlocked authorization windows.
+		p.LeakPhase = true
+		p.LongAdvances = true
+		p.HookEvery = 1
+		w["wait"], w["auth"], w["cancel"], w["csync"], w["kill"], w["killq"] = 8, 6, 9, 5, 4, 2
+		w["gkill"], w["gkillopen"], w["term"], w["cterm"], w["adv"] = 6, 4, 3, 2, 14
 	}
 	return p
 }
@@ -83,6 +95,7 @@ func RunStepped(r *ev.Run, prop string, n int) {
 		runReplay(r, prop, p, rf)
 		return
 	}
+	hangs := 0
 	only := -1
 	if v := os.Getenv("VERIF_ONLY_CASE"); v != "" {
 		fmt.Sscanf(v, "%d", &only)
@@ -103,6 +116,14 @@ func RunStepped(r *ev.Run, prop string, n int) {
 		if res.Ambiguous != "" {
 			ambiguous++
 		}
+		if res.Hang != "" && hangIsDeadlock(res.Hang) {
+			// Each deadlocked case costs the full grace period;
+			// three witnesses are enough.
+			if hangs++; hangs >= 3 {
+				r.Count("cases-skipped-after-three-deadlocks", n-i-1)
+				break
+			}
+		}
 	}
 	for k, v := range foreign {
 		r.Count("foreign-divergence:"+k, v)
@@ -121,6 +142,7 @@ func reportCase(r *ev.Run, prop string, idx int, res *CaseResult, foreign map[st
 	r.Count("stream-messages", res.Events)
 	r.Count("hand-outs-compared-with-policy", res.HandOuts)
 	r.Count("hook-invariant-walks", res.HookCalls)
+	r.Count("scheduler-lock-free-probes-at-quiescence", res.LockProbes)
 	r.Hash(ev.HashOf(res.HistoryHash), len(names) > 0)
 	if r.WantSample() && len(res.Steps) > 10 {
 		steps := res.Steps
@@ -134,7 +156,7 @@ func reportCase(r *ev.Run, prop string, idx int, res *CaseResult, foreign map[st
 		// Hang policy: a call that should have progressed is still not
 		// parked nor returned after 2 x 30 s.
 		if hangIsDeadlock(res.Hang) {
-			if prop == "C06" || prop == "C01" {
+			if prop == "C06" || prop == "C01" || prop == "C14" {
 				r.Violation("hang:scheduler-goroutines-blocked", "calls did not reach quiescence: "+firstLine(res.Hang), witness)
 			}
 		} else {
@@ -219,6 +241,10 @@ func runReplay(r *ev.Run, prop string, p Profile, path string) {
 // The values are about a quarter of the smallest count observed over seeds
 // 1, 2, 3 and 7 in the quick tier.
 var floors = map[string]map[string]int{
+	"C14": {
+		"kill:operation-gone-during-authorization": 5, "kill:authorized-after-gate": 5,
+		"reattach:operation-removed-during-authorization": 1, "synchronize:cancelled-while-blocked": 10,
+	},
 	"C01": {
 		"dedup:attach-while-queued": 50, "dedup:attach-while-executing": 50,
 		"handoff:worker-parked-in-related-invocation": 50, "handoff:worker-parked-in-same-invocation": 15,
